@@ -99,6 +99,10 @@ def check_post_order(idx: Index, rep: Report) -> None:
                 after = cfg.path_avoiding(n_push, head, lambda n: n.id in add_nodes) is None or n_push in add_nodes
                 before = cfg.path_avoiding(head, n_push, lambda n: n.id in add_nodes) is None
                 ok_mark = after or before
+            # every successor is examined: the loop over the successors is not left early
+            early = [x for w in loops[-1:] for x in walk_local(w) if isinstance(x, (ast.Break, ast.Return)) and not any(x in ast.walk(inner) for inner in walk_local(w) if isinstance(inner, (ast.For, ast.While)) and inner is not w)]
+            if early:
+                r.fail(inst + ":all-successors", Finding("C24.R1b", nxt.fq, "successor-skipped", f"the loop over the successors is left early (`{type(early[0]).__name__.lower()}` at line {early[0].lineno}): the successors after the first already-seen one are never pushed, so a block reachable only through such an edge is not visited (not yielded; treated as unreachable by its clients)", f"{nxt.module.relpath}:{early[0].lineno}"))
             if not guarded:
                 r.fail(inst, Finding("C24.R1b", nxt.fq, "unfiltered-push", f"`{unparse(c)}` is not guarded by `{var} not in self.seen`", nxt.loc))
             elif not ok_mark:
